@@ -874,6 +874,21 @@ def sweep_histories():
                      "ssub s3 s0", "ssub s0 s0", "sdis s0 s3", "sfil s1 s0 odd 0", "spar s1 s2 s0 odd 0",
                      "smap s1 s0 0 3", "smap s1 s0 1 0", "smap s1 s0 2 4", "smax s0", "smin s0", "siter s0",
                      "scmp s0 s3", "seq s0 s0"]
+            # aliasing family: BOTH operands of the union family come from ONE ancestor (the same map,
+            # or maps derived from it by insert / remove, which share subtrees in memory), with mergers
+            # other than keep-left.  The result must depend on contents only (customizedUnion_refines);
+            # the Lean model has no physical identity, so this family is what ties a `this == other`
+            # shortcut in the std code to the specification.
+            alias_pairs = (("0", "0"), ("0", "1"), ("1", "0"), ("0", "2"), ("2", "1")) if n % 3 == 0 else (("0", "0"), ("0", "1"))
+            mops += [f"mins m1 m0 {n + 5} 1", "mrem m2 m0 1", f"mins m2 m2 {n + 7} 2"]
+            for a, b in [("m" + x, "m" + y) for x, y in alias_pairs]:
+                mops += [f"mcun m3 {a} {b} {md}" for md in (0, 1, 2, 3)]
+                mops += [f"mmrg m3 {a} {b} {md}" for md in (0, 1, 2)]
+                mops += [f"muni m3 {a} {b}", f"meq {a} {b}", f"mcmp {a} {b}"]
+            sops += [f"sins s1 s0 {n + 5}", "srem s2 s0 1", f"sins s2 s2 {n + 7}"]
+            for a, b in [("s" + x, "s" + y) for x, y in alias_pairs]:
+                sops += [f"suni s3 {a} {b}", f"sint s3 {a} {b}", f"sdif s3 {a} {b}", f"ssub {a} {b}", f"sdis {a} {b}",
+                         f"seq {a} {b}", f"scmp {a} {b}"]
             out.append((mops, ("sweep-map", order)))
             out.append((sops, ("sweep-set", order)))
     # functions / arms that the samlang-level coverage (vlib/coverage_sam.py, coverage/C18.txt) showed
@@ -1053,6 +1068,20 @@ def directed_search(ctx, h, i, r, stats):
     Returns (ops, index, msg) of a property-level failure or None."""
     t = h[min(i, len(h) - 1)].split(" ")
     kind = t[0][0]
+    if t[0] in ("muni", "mcun", "mmrg", "suni", "sint", "sdif") and len(t) >= 4:
+        # the tie broke on a union-family op: same operands (they may alias), every merger / sibling op
+        if kind == "m":
+            alts = [f"mcun {t[1]} {t[2]} {t[3]} {md}" for md in (0, 1, 2, 3)] + \
+                   [f"mmrg {t[1]} {t[2]} {t[3]} {md}" for md in (0, 1, 2)] + [f"muni {t[1]} {t[2]} {t[3]}"]
+        else:
+            alts = [f"{o} {t[1]} {t[2]} {t[3]}" for o in ("suni", "sint", "sdif")] + [f"ssub {t[2]} {t[3]}", f"sdis {t[2]} {t[3]}"]
+        cands = [h[:i] + [a] for a in alts]
+        ms = run_model(cands)
+        _, ans = run_impl(cands)
+        for c, a, m in zip(cands, ans, ms):
+            for fid, j, msg in examine(ctx, c, a, m, "directed", stats):
+                if fid is None and not msg.startswith("MODEL-DISAGREEMENT"):
+                    return (c[:j + 1], j, msg)
     if kind not in ("s", "m") or len(t) < 2 or not t[1].startswith(kind):
         return None
     lines = r["wasm"]["lines"]
@@ -1097,12 +1126,12 @@ def scope_search(ctx, kind, keys, depth, stats, prefix=None, base=None, max_stat
         ins = lambda d, k: f"sins {d} {base} {k}"
         rem = lambda d, k: f"srem {d} {base} {k}"
         extra = [f"sspl {T} {U} {base} {k}" for k in [min(keys) - 1] + list(keys)] + \
-                [f"sfil {T} {base} lt {k}" for k in keys] + [f"sfil {T} {base} ge {k}" for k in keys]
+                [f"sfil {T} {base} lt {k}" for k in keys] + [f"sfil {T} {base} ge {k}" for k in keys[::3]]
     else:
         ins = lambda d, k: f"mins {d} {base} {k} {(k * 7 + 3) % 100}"
         rem = lambda d, k: f"mrem {d} {base} {k}"
         extra = [f"mspl {T} {U} {base} {k}" for k in [min(keys) - 1] + list(keys)] + \
-                [f"mfil {T} {base} klt {k}" for k in keys] + [f"mfil {T} {base} kge {k}" for k in keys]
+                [f"mfil {T} {base} klt {k}" for k in keys] + [f"mfil {T} {base} kge {k}" for k in keys[::3]]
     expanding = [(ins, k) for k in keys] + [(rem, k) for k in keys]
     res = {"violation": None, "disagreement": None, "states": 0, "ops": 0}
     frontier = [list(prefix or [])]
@@ -1198,6 +1227,7 @@ def run(ctx):
     _, answers = run_impl(hist)
     src = run_src_leg(hist, stats)
     src_ready = os.path.exists(os.path.join(common.VERIF, "reports", "SRC.md"))
+    src_pending = None
     src_stats = {"programs": 0, "agree": 0, "excluded_by_flag": 0, "disagree": 0, "lines_compared": 0}
     if src is not None:
         for h, r, so in zip(hist, answers, src):
@@ -1225,8 +1255,10 @@ def run(ctx):
                 what = (f"reference semantics (Source.eval) and compiled program differ at `{h[min(i, len(h) - 1)]}`: "
                         f"source `{(sl[i] if i < len(sl) else '<missing>')[:120]}` (end={so['end']}) "
                         f"wasm `{(wl[i] if i < len(wl) else '<missing>')[:120]}` (end={r['wasm']['end']})")
-                if src_ready and not ctx.violations:
-                    ctx.violation(what, {"protocol": "stdops/source-eval", "ops": h, "at": i, "source_eval": so, "wasm": r["wasm"]})
+                if src_ready and not ctx.violations and src_pending is None:
+                    # reported after the bulk loop, so that a failure of the compiled program against the
+                    # specification oracle (the more direct evidence) is preferred when both exist
+                    src_pending = (what, {"protocol": "stdops/source-eval", "ops": h, "at": i, "source_eval": so, "wasm": r["wasm"]})
                 else:
                     src_stats.setdefault("notes", []).append(what[:300])
     opcount, known_count, evals, nontrivial, samples = {}, {}, 0, 0, []
@@ -1284,6 +1316,8 @@ def run(ctx):
                     nontrivial += 1
                     if len(samples) < 3:
                         samples.append({"ops": h[:25], "impl_answers": r["wasm"]["lines"][:25]})
+    if src_pending is not None and not ctx.violations:
+        ctx.violation(*src_pending)
     # bounded-exhaustive small scope over the implementation's own reachable shapes (every run)
     scope = {}
     for kind in ("s", "m"):
